@@ -2,6 +2,7 @@
 
 mod alloc;
 mod ev;
+mod extract;
 mod payload;
 mod sized;
 mod trace;
@@ -142,6 +143,12 @@ fn main() {
     }
     match args[0].as_str() {
         "replay" => replay(&args[1..]),
+        "extract" => {
+            if args.len() < 2 {
+                usage();
+            }
+            extract::run(&args[1]);
+        }
         _ => usage(),
     }
 }
